@@ -361,8 +361,10 @@ def ur_setup2(I):
 SPECS.append(FucSpec(
     'C07', COMP, 'BaseComponent._updateRoot', ur_setup2, ur_post, fields=TREE_FIELDS, calls={'c._updateRoot': s_child_updateRoot},
     loops={0: LoopSpec(inv=[('visited_subtrees_done', ur_inv)], havoc_fields=['root'])}, cover=['return'],
-    trusted=['lemma G8 (every non-trivial member of sub[y] lies below some child of y) is assumed as a consequence of Forest; '
-             'termination of the recursion rests on acyclicity (Forest.antisym) and is not proved'],
+    trusted=['lemma G8 (every non-trivial member of sub[y] lies below some child of y) is used as an assumption of this FUC; it is PROVED in '
+             'lemmas/Forest.lean from the conjuncts G2 and G4 (themselves obligations of every tree operation) given a rank that decreases '
+             'towards the parent: what stays assumed is that the component forest is finite (such a rank exists) and that the Lean '
+             'statement is the SMT formula used here; termination of the recursion rests on the same rank and is not proved separately'],
     clause='_updateRoot(r): every component in the subtree of self gets root r, all others keep theirs (recursive contract, loop '
            'invariant over the visited children)'))
 
@@ -478,3 +480,12 @@ def df_post(I, outcome, ctx):
 SPECS.append(FucSpec('C07', MGR, '_EventQueue.drainFrom', df_setup, df_post, fields=Q_FIELDS, cover=['return', 'assert'],
                      clause='drainFrom(other): the events queued on other are appended, in order, after the own ones and other is emptied '
                             '(refused by assertion while other is in the middle of a flush)'))
+
+
+# lemma G8 (assumed by the recursive contracts above) is machine-checked: lemmas/Forest.lean derives it from the conjuncts G2
+# (reflexive) and G4 (upward unfolding), which the verifier proves for every operation, and a rank that decreases towards the parent
+from contracts.line_irc import lean_check as _lean_check      # noqa: E402
+from pyvc.contract import CustomCheck as _CustomCheck          # noqa: E402
+SPECS.append(_CustomCheck('C07', 'Forest.lean', _lean_check('Forest.lean'), file='lemmas/Forest.lean',
+                          clause='lemma G8 (a non-trivial member of sub[y] lies below some child of y) follows from the proved conjuncts '
+                                 'G2 and G4 of the Forest invariant and well-foundedness of the parent relation (Lean 4, no sorry)'))
